@@ -401,6 +401,27 @@ def apps(t, acc=None, seen=None):
     return acc
 
 
+def app_terms(t, acc=None, seen=None):
+    """collect the distinct uninterpreted application terms occurring in t (list, innermost first is not guaranteed)"""
+    if acc is None:
+        acc = []
+    if seen is None:
+        seen = set()
+    stack = [t]
+    while stack:
+        x = stack.pop()
+        if is_const(x) or id(x) in seen:
+            continue
+        seen.add(id(x))
+        if x[0] == "app":
+            if x not in acc:
+                acc.append(x)
+            stack.extend(x[3:])
+        elif x[0] != "var":
+            stack.extend(x[2:])
+    return acc
+
+
 def evaluate(t, env, funs=None):
     """Concrete evaluation under env: name -> int/bool. Used for translator validation/replay."""
     if is_const(t):
